@@ -4,9 +4,14 @@ import re
 
 def unsafe_decode(string):
   try:
-    return float(string)
+    value = float(string)
   except:
     raise gfapy.FormatError
+  if not math.isfinite(value):
+    # (e.g. 1e400: it would be written as inf, which is not a float field)
+    raise gfapy.ValueError(
+      "{} is too large for a float field".format(repr(string)))
+  return value
 
 def decode(string):
   validate_encoded(string)
